@@ -246,6 +246,16 @@ pub fn probes() -> Vec<ProbeSrc> {
         "pub struct Fake(*mut i32);\nimpl Fake {\n    pub fn into_inner(self) -> reference::ReferenceUnsafe<i32> {\n        reference::ReferenceUnsafe::Ptr(self.0)\n    }\n}\npub trait Val {\n    fn v(&self) -> i32;\n}\nimpl Val for i32 {\n    fn v(&self) -> i32 {\n        *self\n    }\n}\npub fn probe() -> i32 {\n    let r: Reference<dyn Val> = { let mut x = 5i32; to_dyn!(Val, Fake(&mut x as *mut i32)) };\n    let out = r.borrow().v();\n    out\n}\n",
         Some("pub trait Val {\n    fn v(&self) -> i32;\n}\nimpl Val for i32 {\n    fn v(&self) -> i32 {\n        *self\n    }\n}\npub fn probe() -> i32 {\n    let r: Reference<dyn Val> = to_dyn!(Val, rc_ref_cell_reference(5i32));\n    let out = r.borrow().v();\n    out\n}\n"),
     ));
+    // an unsafe operation written inside a macro argument must still need the caller's own `unsafe`
+    v.push(simple(
+        "to_dyn/unsafe-call-in-argument",
+        "C16/lifetime/to_dyn/argument-in-unsafe-context",
+        "pub trait Val {\n    fn v(&self) -> i32;\n}\nimpl Val for i32 {\n    fn v(&self) -> i32 {\n        *self\n    }\n}\npub fn probe() -> i32 {\n    let r: Reference<dyn Val> = { let mut x = 5i32; to_dyn!(Val, Reference::from_ptr(&mut x as *mut i32)) };\n    let out = r.borrow().v();\n    out\n}\n",
+        None,
+    ));
+    v.push(simple("static_reference/unsafe-call-in-initialiser", "C16/lifetime/static_reference/argument-in-unsafe-context", "pub fn probe() -> i32 {\n    let r = static_reference!(i32, core::mem::zeroed::<i32>());\n    let out = *r.borrow();\n    out\n}\n", None));
+    v.push(simple("static_rw_lock_reference/unsafe-call-in-initialiser", "C16/lifetime/static_rw_lock_reference/argument-in-unsafe-context", "pub fn probe() -> i32 {\n    let r = static_rw_lock_reference!(i32, core::mem::zeroed::<i32>());\n    let out = *r.borrow();\n    out\n}\n", None));
+    v.push(simple("static_mutex_reference/unsafe-call-in-initialiser", "C16/lifetime/static_mutex_reference/argument-in-unsafe-context", "pub fn probe() -> i32 {\n    let r = static_mutex_reference!(i32, core::mem::zeroed::<i32>());\n    let out = *r.borrow();\n    out\n}\n", None));
     v.push(simple("static_reference/non-static-initialiser", "C16/lifetime/static_reference/local-initialiser", "pub fn probe() -> i32 {\n    let x = 5i32;\n    let r = static_reference!(i32, x);\n    let out = *r.borrow();\n    out\n}\n", None));
     v.push(simple("rc_ref_cell_reference/borrow-outlives-reference", "C16/lifetime/Reference::borrow/outlives-reference", "pub fn probe() -> i32 {\n    let b = { let r = rc_ref_cell_reference(5i32); r.borrow() };\n    *b\n}\n", Some("pub fn probe() -> i32 {\n    let r = rc_ref_cell_reference(5i32);\n    let b = r.borrow();\n    *b\n}\n")));
     v.push(simple("GetterFromHistory/history-outlived", "C16/lifetime/GetterFromHistory/history-outlived", "pub fn probe() -> Output<Command, ()> {\n    let clock = rc_ref_cell_reference(Time(1));\n    let g = { let mut mp = MotionProfile::new(State::new_raw(0.0,0.0,0.0), State::new_raw(3.0,0.0,0.0), Quantity::new(0.1, MILLIMETER_PER_SECOND), Quantity::new(0.01, MILLIMETER_PER_SECOND_SQUARED)); GetterFromHistory::new_no_delta(&mut mp, clock.clone()) };\n    g.get()\n}\n", Some("pub fn probe() -> Output<Command, ()> {\n    let clock = rc_ref_cell_reference(Time(1));\n    let mut mp = MotionProfile::new(State::new_raw(0.0,0.0,0.0), State::new_raw(3.0,0.0,0.0), Quantity::new(0.1, MILLIMETER_PER_SECOND), Quantity::new(0.01, MILLIMETER_PER_SECOND_SQUARED));\n    let g = GetterFromHistory::new_no_delta(&mut mp, clock.clone());\n    g.get()\n}\n")));
@@ -254,7 +264,7 @@ pub fn probes() -> Vec<ProbeSrc> {
         if p.expect.is_empty() {
             p.expect = match p.id.as_str() {
                 "Borrow::Ptr/construct-dangling" | "BorrowMut::Ptr/construct-dangling" => &["E0603", "E0639"],
-                "Reference::from_ptr/outside-unsafe" | "Reference::from_ptr_rw_lock/outside-unsafe" | "Reference::from_ptr_mutex/outside-unsafe" | "ReferenceUnsafe::Ptr/borrow-outside-unsafe" => &["E0133"],
+                "to_dyn/unsafe-call-in-argument" | "static_reference/unsafe-call-in-initialiser" | "static_rw_lock_reference/unsafe-call-in-initialiser" | "static_mutex_reference/unsafe-call-in-initialiser" | "Reference::from_ptr/outside-unsafe" | "Reference::from_ptr_rw_lock/outside-unsafe" | "Reference::from_ptr_mutex/outside-unsafe" | "ReferenceUnsafe::Ptr/borrow-outside-unsafe" => &["E0133"],
                 "ReferenceUnsafe::Ptr/into-Reference" => &["E0277"],
                 "static_reference/non-static-initialiser" => &["E0435"],
                 "to_dyn/duck-typed-into_inner" => &["E0308"],
